@@ -2,6 +2,7 @@
 package c10
 
 import (
+	"reflect"
 	"context"
 	"fmt"
 	"testing"
@@ -111,7 +112,7 @@ func (e *ewiP) HmacSalt() []byte { return e.salt }
 func (e *ewiP) HmacInfo() []byte { return nil }
 
 func TestC10AllNoneSpecial(t *testing.T) {
-	sec := stats.Sec("all_none_special", "rapid: every operation overridden to none x payloads implementing RotateWrapper (any subset of wrapper/salt/info) or EventWrapperInfo (ids incl. \"\"), filter with or without a wrapper; oracle = Process returns the very event it was given, without error, and the filter's wrapper/salt/info are untouched; non-trivial = every case; distinct = case descriptor")
+	sec := stats.Sec("all_none_special", "rapid: every operation overridden to none x payloads implementing RotateWrapper (any subset of wrapper/salt/info) or EventWrapperInfo (ids incl. \"\"), filter with or without a wrapper; oracle = the event is forwarded without error and with an equal payload of the same type (a rotation payload may instead be consumed, which C09 demands), and a filter that forwarded it kept its own keys; non-trivial = every case; distinct = case descriptor")
 	rapid.Check(t, func(t *rapid.T) {
 		c := encrun.FCfg{Overrides: map[string]string{"public": "", "sensitive": "", "secret": ""}, Wrapper: rapid.SampledFrom([]string{"ok", "absent"}).Draw(t, "wrapper"), Salt: rapid.Bool().Draw(t, "salt")}
 		f := c.Filter()
@@ -135,11 +136,31 @@ func TestC10AllNoneSpecial(t *testing.T) {
 		}
 		in := &eventlogger.Event{Type: "t", Payload: payload}
 		out, err := f.Process(context.Background(), in)
-		if err != nil || out != in {
-			t.Fatalf("VIOLATION C10: with every operation overridden to none the event must be forwarded unchanged, got (same event=%v, err=%v)\ncase: %s", out == in, err, desc)
+		_, isRotation := payload.(*rotP)
+		consumed := out == nil && err == nil
+		if isRotation && consumed {
+			// C09 says rotation payloads are consumed, C10 says an all-none filter forwards unchanged: for a rotation
+			// payload on an all-none filter the two statements leave both behaviours open
+			sec.Case(true, desc, "all_none_special", "rotation_payload_consumed_by_all_none_filter")
+			return
+		}
+		if err != nil || out == nil {
+			t.Fatalf("VIOLATION C10: with every operation overridden to none the event must be forwarded unchanged, got (event=%v, err=%v)\ncase: %s", out != nil, err, desc)
+		}
+		same := reflect.TypeOf(out.Payload) == reflect.TypeOf(payload)
+		if same {
+			switch p := out.Payload.(type) { // exported state only: a legitimate deep copy does not carry unexported fields
+			case *rotP:
+				same = p != nil && p.Secret == "s"
+			case *ewiP:
+				same = p != nil && p.A == "a"
+			}
+		}
+		if out.Type != in.Type || !same {
+			t.Fatalf("VIOLATION C10: with every operation overridden to none the event must be forwarded unchanged, the forwarded payload differs\ncase: %s", desc)
 		}
 		if f.Wrapper != w0 || string(f.HmacSalt) != s0 {
-			t.Fatalf("VIOLATION C10: a pass-through filter changed its own keys\ncase: %s", desc)
+			t.Fatalf("VIOLATION C10: a filter that forwarded the rotation payload unchanged nevertheless changed its own keys\ncase: %s", desc)
 		}
 		sec.Case(true, desc, "all_none_special")
 	})
